@@ -276,15 +276,16 @@ Fixpoint insert_sorted (st : state) (x : N * N) (l : list (N * N)) : list (N * N
 Definition sort_processing (st : state) (l : list (N * N)) : list (N * N) :=
   fold_right (insert_sorted st) [] l.
 
-(* verifyProcessingBlocks loop: returns state, invalid ids (in processing order), events,
-   or None when a parent cannot be fetched *)
+(* verifyProcessingBlocks loop: returns state, invalid ids (in processing order), events.
+   A parent that cannot be fetched (it was rejected) makes the block unresolved; the result is
+   never None any more (the option is kept for the shape of [step]). *)
 Fixpoint verify_processing (st : state) (l : list (N * N)) (inv : list N) (evs : list event)
   : option (state * list N * list event) :=
   match l with
   | [] => Some (st, inv, evs)
   | (b, h) :: r =>
     match get_block st (parent st b) with
-    | None => None
+    | None => verify_processing st r (inv ++ [b]) evs   (* parent gone (rejected): unresolved, not fatal *)
     | Some pr =>
       let po := ref_obj st pr in
       if negb (o_verified po) then verify_processing st r (inv ++ [b]) evs
